@@ -14,7 +14,7 @@
    cfF = one-off job with the repaired timer branch (the code after the fix: commit),
    cfU = one-off job as found in the pinned tree, cfP = periodic job. *)
 From Verif Require Import Lib.Base Lib.Sched Lib.Reach Model.C02_Scheduler Model.C02_Script Proofs.C02 Proofs.C02_Script Proofs.C02_ScriptExact Proofs.C02_ScriptMore.
-From Verif Require Import Check.C02 Proofs.C02_Check.
+From Verif Require Import Model.C02_TableOps Check.C02 Proofs.C02_Check.
 
 (* never twice: under every schedule jobFunc of a one-off job is called at most once, and at most
    one call is in progress; no send on / close of a closed channel ever happens.  Holds for the
@@ -237,6 +237,37 @@ Theorem C02_duplicate_rejected :
   forall t n j, t_exists t n = true -> t_schedule t n j = (t, ErrJobAlreadyExists).
 Proof. exact duplicate_rejected. Qed.
 Print Assumptions C02_duplicate_rejected.
+
+(* a re-scheduled name stays listed (repaired removeJob): when the goroutine of an earlier job j1
+   of the name leaves, a newer job j2 that holds the name is untouched -- and so is every other
+   name; the goroutine's own entry is removed *)
+Theorem C02_rescheduled_job_stays_listed :
+  (forall t n j1 j2, t_get t n = Some j2 -> j1 <> j2 ->
+      t_release t n j1 = t /\ t_exists (t_release t n j1) n = true
+      /\ t_schedule (t_release t n j1) n 99 = (t_release t n j1, ErrJobAlreadyExists))
+  /\ (forall t n j, t_get t n = Some j -> t_exists (t_release t n j) n = false)
+  /\ (forall t n j m, m <> n -> t_get (t_release t n j) m = t_get t m).
+Proof.
+  split; [|split; [exact release_own | exact release_other_names]].
+  intros t n j1 j2 H Hne. rewrite (release_keeps_newer t n j1 j2 H Hne).
+  assert (He : t_exists t n = true) by (unfold t_exists; rewrite H; reflexivity).
+  split; [reflexivity | split; [exact He | apply duplicate_rejected; exact He]].
+Qed.
+Print Assumptions C02_rescheduled_job_stays_listed.
+
+(* ... which is FALSE of the tree as found, where the goroutine deleted by name: job 1 is scheduled
+   and cancelled, job 2 is scheduled under the same name, job 1's goroutine leaves (timer or context
+   branch) and deletes the name: job 2 is pending but no longer listed, and a third job of the same
+   name is accepted beside it *)
+Theorem C02_rescheduled_job_removed_refuted_on_pinned_tree :
+  exists n, let t1 := fst (t_schedule [] n 1) in
+            let t2 := fst (t_cancel t1 n) in
+            let t3 := fst (t_schedule t2 n 2) in
+            t_get t3 n = Some 2
+            /\ t_exists (t_del t3 n) n = false /\ snd (t_schedule (t_del t3 n) n 3) = Nil
+            /\ t_exists (t_release t3 n 1) n = true /\ snd (t_schedule (t_release t3 n 1) n 3) = ErrJobAlreadyExists.
+Proof. exists 7. vm_compute. repeat split; reflexivity. Qed.
+Print Assumptions C02_rescheduled_job_removed_refuted_on_pinned_tree.
 
 (* a one-off job is claimed by at most one external call: a successful RunJob and a successful
    CancelJob never both occur, and while the name is in the table nobody holds the job *)
